@@ -22,8 +22,13 @@ func init() {
 			// ARAP assembles its sparse system row by row
 			c.runRowIdx("ROWIDX", c.libPkgs()[:1], baseIn("deformation.go"))
 			c.floor("ROWIDX", 0)
+			// divideSegment reverses its result in place
+			c.runMirrorSwap("MIRRORSWAP", append(c.libPkgs()[:2:2], c.fixturePkg("g")), c.fileFilter("mesh_ops.go", "smooth.go", "subdivision.go", "deformation.go", "decimate.go", "ptr_mesh.go"))
+			c.floor("MIRRORSWAP", 0)
 		},
 		SelfTest: []Mutation{
+			{Name: "edge points of a reversed segment are swapped back again", File: "model3d/subdivision.go",
+				Old: "for i := 0; i < len(result)/2; i++ {", New: "for i := 0; i < len(result); i++ {", Rule: "MIRRORSWAP", Expect: "divideSegment"},
 			{Name: "2D decimation reads neighbours from the input mesh", File: "model2d/mesh_ops.go",
 				Old: "n1, n2, _ := vertexNeighbors(res, next)\n\t\tif len(res.Find(n1, n2)) > 0 {", New: "n1, n2, _ := vertexNeighbors(res, next)\n\t\tif len(m.Find(n1, n2)) > 0 {", Rule: "STALECOPY", Expect: "Decimate"},
 			{Name: "normal criterion ignores the keep-filter", File: "model3d/decimate.go",
